@@ -412,7 +412,7 @@ func corrC17(r *Run) {
 	}
 	// ---- 4. texts: encode / decode on the implementation and on the model
 	aliases := aliasesOf()
-	perCoding := r.N(70, 1000)
+	perCoding := r.N(70, 650)
 	for _, cs := range charsetList {
 		a := alph[cs.dc]
 		for i := 0; i < perCoding; i++ {
@@ -455,7 +455,7 @@ func corrC17(r *Run) {
 	for _, t := range []string{"Łódź", "Dvořák", "Ґ", "ְשלום", "日本©", "가¢", "Ā", "naïve café", "Жук", "שלום", "日本語", "안녕", "\U0001F48A", "€uro", "a\u0085b"} {
 		entryPoints(r, t, []coding.DataCoding{coding.Latin1Coding, coding.CyrillicCoding, coding.HebrewCoding, coding.UCS2Coding, coding.ShiftJISCoding, coding.EUCKRCoding}, "corpus")
 	}
-	nEP := r.N(14, 250)
+	nEP := r.N(14, 170)
 	for _, d := range detectList {
 		if d.dc == coding.GSM7BitCoding || d.dc == coding.ASCIICoding {
 			continue
@@ -525,6 +525,9 @@ func corrC17(r *Run) {
 				}
 			} else {
 				for o := 20; o <= 72; o++ {
+					if _, isBase := alph[dc]; !isBase && o%4 != 0 && (o < 62 || o > 70) {
+						continue // alias values: every offset around the cut, every 4th elsewhere
+					}
 					offsets = append(offsets, o)
 				}
 			}
@@ -561,7 +564,7 @@ func corrC17(r *Run) {
 		for _, h := range corpus {
 			entryHistory(r, h, "history corpus")
 		}
-		nH := r.N(10, 200)
+		nH := r.N(10, 140)
 		for _, cs := range charsetList {
 			a := alph[cs.dc]
 			for i := 0; i < nH; i++ {
@@ -589,7 +592,7 @@ func corrC17(r *Run) {
 		}
 	}
 	// ---- 5. decoders on random sequences of valid codes (not only encoder images)
-	nSeq := r.N(25, 400)
+	nSeq := r.N(25, 300)
 	for _, cs := range charsetList {
 		if cs.kind != 1 {
 			continue
